@@ -29,7 +29,9 @@ def rules(f):
     # closure of get_or_insert_with: what the inserted default covers
     m = re.search(r'\.get_or_insert_with\(\|\| SlotRange \{', f.text)
     if not m:
-        f._lost('get_or_insert_with closure')
+        # the default-inserting closure is gone: nothing to specify; the obligations decide on their own
+        f.log.rule('closure-spec', f, 'get_or_insert_with closure not present (skipped)')
+        return f
     mask = vlib.code_mask(f.text)
     bo = m.end() - 1
     bc = vlib.match_brace(f.text, mask, bo)
